@@ -1087,7 +1087,7 @@ def gen_cases(rng, tier):
         yield _mk_case(s, "fixed-shapes")
     if tier != "quick":                      # exhaustive small scope: every operation x every kind of value
         yield from search_cases(rng, tier)
-    n = 6000 if tier == "quick" else 150000
+    n = 6000 if tier == "quick" else 120000
     for i in range(n):
         r = rng.random()
         if r < 0.70:
